@@ -191,20 +191,35 @@ def content_type_rules(ctx, prog, ser, pk, spec, ox, rid):
     fx = ctm.methods.get("from_xml") if ctm else None
     if not (gi and fx):
         raise AnalysisError("anchor vanished: _ContentTypeMap")
-    order = []
-    for st in gi.node.body:
-        if isinstance(st, ast.If) and isinstance(st.test, ast.Compare) and isinstance(st.test.ops[0], ast.In):
-            m = dotted(st.test.comparators[0])
-            k = dotted(st.test.left)
-            rets = [r for r in st.body if isinstance(r, ast.Return)]
-            if rets and isinstance(rets[0].value, ast.Subscript) and dotted(rets[0].value.value) == m and dotted(rets[0].value.slice) == k:
-                order.append((m, k))
+    from sa import paths as P_
+    from sa.inline import expand as _expand
+
+    gx = _expand(prog, gi, local_only=True)
     param = gi.node.args.args[1].arg
-    if order == [("self._overrides", param), ("self._defaults", param + ".ext")] and isinstance(gi.node.body[-1], ast.Raise):
-        ctx.ok(rid, "_ContentTypeMap.__getitem__", sample={"precedence": "Override by part name, then Default by extension, else KeyError"})
-    else:
-        ctx.violation(rid, "_ContentTypeMap.__getitem__", "reader does not resolve Override (by name) before Default (by extension): %s" % order,
+    O, D = "self._overrides", "self._defaults"
+    rows = P_.outcomes(gx.body, P_.aliases(gx))
+    by_name = [r for r in rows if r.end == "return" and r.value == "%s[%s]" % (O, param)]
+    by_ext = [r for r in rows if r.end == "return" and r.value == "%s[%s.ext]" % (D, param)]
+    probs = []
+    for r in by_ext:
+        if not P_.implied(r.facts, lambda a: a[0] == "in" and a[1] == param and a[2] == O and a[3] is False):
+            probs.append("a Default is returned on a path that has not established that the part has no Override")
+    for r in rows:
+        if r.end == "return" and r not in by_name and P_.implied(r.facts, lambda a: a[0] == "in" and a[1] == param and a[2] == O and a[3] is True):
+            probs.append("a part with an Override does not get the Override's type")
+    missing = [r for r in rows if P_.implied(r.facts, lambda a: a[0] == "in" and a[1] == param and a[2] == O and a[3] is False)
+               and P_.implied(r.facts, lambda a: (a[0] == "in" and a[1] == param + ".ext" and a[2] == D and a[3] is False)
+                              or (a[0] == "none" and a[1] == "%s.get(%s.ext)" % (D, param) and a[2] is True))]
+    if by_name and by_ext and not probs and missing and all(r.end == "raise" for r in missing):
+        ctx.ok(rid, "_ContentTypeMap.__getitem__", sample={"precedence": "Override by part name, then Default by extension, else %s" % missing[0].exc})
+    elif probs:
+        ctx.violation(rid, "_ContentTypeMap.__getitem__", "reader does not resolve Override (by name) before Default (by extension): %s" % "; ".join(sorted(set(probs))),
                       file=gi.file, line=gi.line)
+    elif rows and by_ext and not by_name:
+        ctx.violation(rid, "_ContentTypeMap.__getitem__", "reader does not resolve Override (by name) before Default (by extension): no path returns the Override's type",
+                      file=gi.file, line=gi.line)
+    else:
+        ctx.error("_ContentTypeMap.__getitem__", "content-type resolution not recognised (returns %s)" % sorted({str(r.value) for r in rows if r.end == "return"}))
     built = {}
     for n in walk_own(fx.node):
         if isinstance(n, ast.Assign) and isinstance(n.value, ast.Call) and dotted(n.value.func) == "CaseInsensitiveDict" and n.value.args:
@@ -236,10 +251,21 @@ def content_type_rules(ctx, prog, ser, pk, spec, ox, rid):
     lowered = {}
     for mname in ("__contains__", "__getitem__", "__setitem__"):
         f = cid.methods.get(mname)
-        lowered[mname] = f is not None and any(
-            isinstance(c, ast.Call) and isinstance(c.func, ast.Attribute) and c.func.attr == mname and c.args
-            and isinstance(c.args[0], ast.Call) and isinstance(c.args[0].func, ast.Attribute) and c.args[0].func.attr == "lower"
-            and dotted(c.args[0].func.value) == f.node.args.args[1].arg for c in ast.walk(f.node))
+        if f is None:
+            lowered[mname] = False
+            continue
+        fx_ = _expand(prog, f, local_only=True)
+        kp = f.node.args.args[1].arg
+        fal_ = P_.value_aliases(fx_)
+
+        def is_lowered(e):
+            if isinstance(e, ast.Name) and e.id in fal_ and e.id != kp:
+                e = fal_[e.id]
+            return isinstance(e, ast.Call) and isinstance(e.func, ast.Attribute) and e.func.attr in ("lower", "casefold") and dotted(e.func.value) == kp
+
+        # the underlying dict operation receives the lowered key and never the raw one
+        base_calls = [c for c in ast.walk(fx_) if isinstance(c, ast.Call) and isinstance(c.func, ast.Attribute) and c.func.attr == mname]
+        lowered[mname] = bool(base_calls) and all(any(is_lowered(x) for x in c.args) and not any(dotted(x) == kp for x in c.args) for c in base_calls)
     if all(lowered.values()):
         ctx.ok(rid, "CaseInsensitiveDict", sample={"lowered_in": sorted(lowered)})
     else:
@@ -464,6 +490,8 @@ def run(ctx):
 
     from sa import paths as P_
 
+    from sa.itersrc import entry_facts
+
     def loop_paths(fnode):
         """(loop, paths through its body, aliases) for every for-loop of the function (nested definitions included)."""
         out = []
@@ -496,8 +524,8 @@ def run(ctx):
                     # reading target_part needs the not-external decision
                     node = ev[1] if ev[0] in ("stmt", "cond") else None
                     if node is not None and any(isinstance(x, ast.Attribute) and x.attr == "target_part" for x in ast.walk(node)):
-                        fs = P_.facts(pth, i, al)
-                        if not any(a[0] == "truthy" and a[1].endswith(".is_external") and a[2] is False for a in fs):
+                        fs = entry_facts(f.node, loop, al, prog, f) + P_.facts(pth, i, al)
+                        if not P_.implied(fs, lambda a: a[0] == "truthy" and a[1].endswith(".is_external") and a[2] is False):
                             probs.append("target_part is read on a path that has not excluded external relationships (line %d)" % node.lineno)
                     pr = produced(ev)
                     if pr is None:
@@ -513,10 +541,12 @@ def run(ctx):
                         continue
                     n_out += 1
                     fs = P_.facts(pth, i, al)
-                    if not any(a[0] == "in" and a[1] == subj and a[2].endswith("visited") and a[3] is False for a in fs):
+                    # the visited collection is whichever the path has tested the part against (and must then mark it in)
+                    tested = {a[2] for a in fs if a[0] == "in" and a[1] == subj and a[3] is False}
+                    if not tested:
                         probs.append("a target part is handed out (line %d) on a path that has not tested `part not in visited`" % ev[1].lineno)
                     adds = [j for j, e2 in enumerate(pth.events) if e2[0] == "stmt" and any(
-                        isinstance(c, ast.Call) and isinstance(c.func, ast.Attribute) and c.func.attr == "add" and (dotted(c.func.value) or "").endswith("visited")
+                        isinstance(c, ast.Call) and isinstance(c.func, ast.Attribute) and c.func.attr == "add" and (P_.norm(c.func.value, al) in tested or not tested)
                         and c.args and P_.norm(c.args[0], al) == subj for c in ast.walk(e2[1]))]
                     if not adds:
                         probs.append("the part handed out at line %d is never marked visited on that path" % ev[1].lineno)
@@ -557,7 +587,8 @@ def run(ctx):
     else:
         ctx.violation("R1.2", "OpcPackage.iter_rels:all", "some relationships are filtered out of the traversal", file=ir.file, line=ir.line)
     # iter_parts is driven by iter_rels
-    if any(isinstance(n, ast.For) and isinstance(n.iter, ast.Call) and dotted(n.iter.func) == "self.iter_rels" for n in ast.walk(ip.node)):
+    from sa.itersrc import source_of as _source_of
+    if any(isinstance(n, ast.For) and _source_of(ip.node, n.iter, prog, ip)["terminal"] == "self.iter_rels()" for n in ast.walk(ip.node)):
         ctx.ok("R1.2", "OpcPackage.iter_parts:source", nontrivial=False)
     else:
         ctx.violation("R1.2", "OpcPackage.iter_parts:source", "iter_parts does not follow iter_rels", file=ip.file, line=ip.line)
@@ -660,21 +691,64 @@ def run(ctx):
                           file=ox.relpath, line=ctr.line)
     fxr = rel.methods.get("from_xml")
     rinit = rel.methods.get("__init__")
-    cc = [c for c in ast.walk(fxr.node) if isinstance(c, ast.Call) and dotted(c.func) == "cls"]
-    rp = fxr.node.args.args[2].arg
-    good = bool(cc) and [dotted(a) for a in cc[0].args][:4] == [fxr.node.args.args[1].arg, rp + ".rId", rp + ".reltype", rp + ".targetMode"]
+    from sa import paths as P_
+    from sa.inline import expand as _expand
+
+    def mode_fact(a, internal):
+        if a[0] != "cmp" or not a[2].endswith("targetMode"):
+            return False
+        if a[3] == "RTM.INTERNAL":
+            return a[4] is ((a[1] == "Eq") == internal)
+        if a[3] == "RTM.EXTERNAL":
+            return a[4] is ((a[1] == "Eq") != internal)
+        return False
+
+    def path_value(pth, e, al):
+        """normalised source of expression e at the end of the path, with names assigned on the path resolved"""
+        env = {}
+        for st in pth.stmts():
+            if isinstance(st, ast.Assign) and len(st.targets) == 1 and isinstance(st.targets[0], ast.Name):
+                env[st.targets[0].id] = st.value
+            elif isinstance(st, ast.AnnAssign) and isinstance(st.target, ast.Name) and st.value is not None:
+                env[st.target.id] = st.value
+        if isinstance(e, ast.Name) and e.id in env:
+            e = env[e.id]
+        return P_.norm(e, al)
+
+    fxx = _expand(prog, fxr, local_only=True)
+    fal = P_.aliases(fxx)
+    fpar = [a.arg for a in fxr.node.args.args]
+    bp, rp, pp = fpar[1], fpar[2], fpar[3]
     ip_ = [a.arg for a in rinit.node.args.args][1:]
     fields_ok = all(stored_from_param(rinit, "_" + p) == p for p in ip_) and ip_ == ["base_uri", "rId", "reltype", "target_mode", "target"]
-    tgt = None
-    for n in ast.walk(fxr.node):
-        if isinstance(n, ast.IfExp) and isinstance(n.test, ast.Compare) and dotted(n.test.left) == rp + ".targetMode" \
-                and dotted(n.test.comparators[0]) == "RTM.EXTERNAL" and isinstance(n.test.ops[0], ast.Eq):
-            tgt = (dotted(n.body), isinstance(n.orelse, ast.Subscript) and dotted(n.orelse.value) == fxr.node.args.args[3].arg)
-    if good and fields_ok and tgt == (rp + ".target_ref", True):
+    probs, n_rows = [], 0
+    for pth in P_.enum_paths(fxx.body):
+        if pth.end != "return":
+            continue
+        v = pth.end_node.value
+        if not (isinstance(v, ast.Call) and dotted(v.func) in ("cls", "_Relationship") and len(v.args) == 5):
+            probs.append("a path does not return cls(base_uri, rId, reltype, target_mode, target)")
+            continue
+        n_rows += 1
+        got = [path_value(pth, a, fal) for a in v.args]
+        if got[:4] != [bp, rp + ".rId", rp + ".reltype", rp + ".targetMode"]:
+            probs.append("constructor receives %s, not (base_uri, Id, Type, TargetMode)" % got[:4])
+        fs = P_.facts(pth, None, fal)
+        ext = P_.implied(fs, lambda a: mode_fact(a, False))
+        inn = P_.implied(fs, lambda a: mode_fact(a, True))
+        if ext and got[4] != rp + ".target_ref":
+            probs.append("the target of an External relationship is %s, not the Target string" % got[4])
+        elif inn and not (got[4].startswith(pp + "[") and "from_rel_ref(%s, %s.target_ref)" % (bp, rp) in got[4]):
+            probs.append("the target of an Internal relationship is %s, not the part named by Target resolved against the base URI" % got[4])
+        elif not ext and not inn:
+            probs.append("the target is chosen without looking at TargetMode")
+    if n_rows and fields_ok and not probs:
         ctx.ok("R1.3", "_Relationship.from_xml", sample={"reads": "Id, Type, TargetMode; Target as string when External else as the part of that name"})
+    elif not n_rows and not probs:
+        ctx.error("_Relationship.from_xml", "no returning path recognised")
     else:
-        ctx.violation("R1.3", "_Relationship.from_xml", "relationship is not rebuilt from (Id, Type, TargetMode, Target) (ctor=%s fields=%s target=%s)"
-                      % (good, fields_ok, tgt), file=fxr.file, line=fxr.line)
+        ctx.violation("R1.3", "_Relationship.from_xml", "relationship is not rebuilt from (Id, Type, TargetMode, Target): %s (fields=%s)"
+                      % ("; ".join(sorted(set(probs))), fields_ok), file=fxr.file, line=fxr.line)
     for prop, field in (("rId", "_rId"), ("reltype", "_reltype")):
         f = rel.methods.get(prop)
         rets = [n.value for n in ast.walk(f.node) if isinstance(n, ast.Return)] if f else []
@@ -690,28 +764,60 @@ def run(ctx):
     else:
         ctx.violation("R1.3", "_Relationship.is_external", "is_external is not `target_mode == External`", file=rel.file, line=ie.line if ie else rel.line)
     lf = rels.methods.get("load_from_xml")
-    inner = [n for n in lf.node.body if isinstance(n, ast.FunctionDef)]
-    good = False
-    if inner:
-        g = inner[0]
-        loop = [n for n in ast.walk(g) if isinstance(n, ast.For)]
-        if loop and dotted(loop[0].iter).endswith(".relationship_lst"):
-            lp = loop[0]
-            last = lp.body[-1]
-            y = isinstance(last, ast.Expr) and isinstance(last.value, ast.Yield) and isinstance(last.value.value, ast.Call) \
-                and dotted(last.value.value.func) == "_Relationship.from_xml"
-            skips = [st for st in lp.body[:-1]]
-            only_dangling = all(isinstance(st, ast.If) and isinstance(st.test, ast.Compare) and dotted(st.test.comparators[0]) == "RTM.INTERNAL"
-                                for st in skips)
-            good = y and only_dangling
-    upd = any(isinstance(c, ast.Call) and dotted(c.func) == "self._rels.update" for c in ast.walk(lf.node))
-    gen_key = any(isinstance(n, ast.GeneratorExp) and isinstance(n.elt, ast.Tuple) and dotted(n.elt.elts[0]).endswith(".rId")
-                  and dotted(n.elt.elts[1]) == dotted(n.elt.elts[0]).rsplit(".", 1)[0] for n in ast.walk(lf.node))
-    if good and upd and gen_key:
-        ctx.ok("R1.3", "_Relationships.load_from_xml", sample={"keeps": "every Relationship element, keyed by its Id", "skips": "only internal ones whose target part is absent"})
+    lfx = _expand(prog, lf, local_only=True)
+    lal, lval = P_.aliases(lfx), P_.value_aliases(lfx)
+    lpar = [a.arg for a in lf.node.args.args]
+    loops = [n for n in ast.walk(lfx) if isinstance(n, ast.For) and (dotted(n.iter) or "").endswith(".relationship_lst")
+             and P_.norm(n.iter, lal).split(".")[0] in lpar]
+    probs, produced = [], 0
+    if len(loops) != 1:
+        ctx.error("_Relationships.load_from_xml", "the loop over the relationship elements is not recognised")
     else:
-        ctx.violation("R1.3", "_Relationships.load_from_xml", "loading drops or re-keys relationships other than dangling internal ones",
-                      file=lf.file, line=lf.line)
+        lp = loops[0]
+        ev = lp.target.id if isinstance(lp.target, ast.Name) else None
+        for pth in P_.enum_paths(lp.body):
+            if pth.end == "raise":
+                continue
+            made = None   # how this path hands the relationship on
+            for st in pth.stmts():
+                for x in ast.walk(st):
+                    if isinstance(x, ast.Yield) and x.value is not None:
+                        made = ("yield", path_value(pth, x.value, lal))
+                    if isinstance(x, ast.Assign) and isinstance(x.targets[0], ast.Subscript) and P_.norm(x.targets[0].value, lal) == "self._rels":
+                        made = ("store", P_.norm(x.targets[0].slice, lal), dotted(x.value), path_value(pth, x.value, lal))
+            if made is None:
+                fs = P_.facts(pth, None, lal)
+                dangling = P_.implied(fs, lambda a: mode_fact(a, True)) and P_.implied(
+                    fs, lambda a: a[0] == "in" and a[3] is False and a[2] == lpar[3] and "from_rel_ref(" in (
+                        a[1] if a[1] not in lval else ast.unparse(lval[a[1]])))
+                if not dangling:
+                    probs.append("a relationship is dropped on a path that has not established that it is Internal with an absent target part")
+                continue
+            produced += 1
+            built = made[1] if made[0] == "yield" else made[3]
+            import re as _re
+            from_elem = ev is not None and (
+                ("from_xml(" in built and _re.search(r"\b%s\b" % _re.escape(ev), built) is not None)
+                or ("_Relationship(" in built and (ev + ".rId") in built))
+            if not from_elem:
+                probs.append("the relationship handed on (%s) is not built from the element of this iteration" % built[:60])
+            if made[0] == "store" and made[1] != "%s.rId" % made[2]:
+                probs.append("a relationship is stored under %s, not under its own Id" % made[1])
+        yields = any(isinstance(x, ast.Yield) for x in ast.walk(lp))
+        if yields:
+            upd = [c for c in ast.walk(lfx) if isinstance(c, ast.Call) and isinstance(c.func, ast.Attribute) and c.func.attr == "update"
+                   and P_.norm(c.func.value, lal) == "self._rels"]
+            gen_key = any(isinstance(n, ast.GeneratorExp) and isinstance(n.elt, ast.Tuple) and (dotted(n.elt.elts[0]) or "").endswith(".rId")
+                          and dotted(n.elt.elts[1]) == dotted(n.elt.elts[0]).rsplit(".", 1)[0] for c in upd for n in ast.walk(c))
+            if not (upd and gen_key):
+                probs.append("the generated relationships are not stored in self._rels under their own Id")
+        if not produced:
+            ctx.error("_Relationships.load_from_xml", "no path hands a relationship on")
+        elif probs:
+            ctx.violation("R1.3", "_Relationships.load_from_xml", "loading drops or re-keys relationships other than dangling internal ones: %s"
+                          % "; ".join(sorted(set(probs))), file=lf.file, line=lf.line)
+        else:
+            ctx.ok("R1.3", "_Relationships.load_from_xml", sample={"keeps": "every Relationship element, keyed by its Id", "skips": "only internal ones whose target part is absent"})
 
     # -- R1.4 --------------------------------------------------------------------------------------------
     ctx.rule("R1.4", "(part name, content type, payload) pass through the loader unchanged")
@@ -728,7 +834,8 @@ def run(ctx):
     else:
         kexpr, c, _it = pc
         kv = norm(kexpr, al)
-        args = [norm(a, al) for a in c.args] + [norm(k.value, al) for k in c.keywords]
+        pval = P_.value_aliases(pf.node)
+        args = [P_.full(a, pval) for a in c.args] + [P_.full(k.value, pval) for k in c.keywords]
         if args == [kv, "self._content_types[%s]" % kv, "self._package", "self._package_reader[%s]" % kv]:
             ctx.ok("R1.4", "_PackageLoader._parts", sample={"part": "PartFactory(partname, content_types[partname], package, blob=reader[partname])"})
         else:
